@@ -149,14 +149,43 @@ def threading(chk, F):
                        "(integer parts, remainder smaller than the unit just used) is bypassed on that path" % ap_str(ap)[:80])
     # last-unit test: i == len - 1 guards the exact division; div_rem on the other edge
     def is_last(kind, ap, info):
+        """a comparison of the loop index with the list's length that singles out the last element, however it is written
+        (`i == len - 1`, `i + 1 < len`, `i + 1 >= len`, ..): evaluated for the last and for the one-before-last index"""
         if kind != "bool":
             return None
         r = ap[0]
-        if r[0] == "binop" and r[1] == "Eq" and "Vec::<T, A>::len" in ap_str(ap) and "Sub" in ap_str(ap):
+        if r[0] != "binop" or r[1] not in ("Eq", "Ne", "Lt", "Le", "Gt", "Ge") or "Vec::<T, A>::len" not in ap_str(ap):
+            return None
+
+        def val(a, i, n):
+            rt, pr = a
+            if rt[0] == "const" and isinstance(rt[1], int):
+                return rt[1]
+            if rt[0] == "binop" and rt[1].replace("WithOverflow", "") in ("Add", "Sub"):
+                x, y = val(rt[2], i, n), val(rt[3], i, n)
+                if x is None or y is None:
+                    return None
+                return x + y if rt[1].startswith("Add") else x - y
+            if rt[0] == "cast":
+                return val(rt[2], i, n)
+            if rt[0] == "call" and rt[1].endswith("::len"):
+                return n
+            if "numerate" in ap_str(a) and "::next(" in ap_str(a) and pr[-1:] == ("0",):
+                return i
+            return None
+        out = []
+        for i in (9, 8):
+            x, y = val(r[2], i, 10), val(r[3], i, 10)
+            if x is None or y is None:
+                return None
+            out.append({"Eq": x == y, "Ne": x != y, "Lt": x < y, "Le": x <= y, "Gt": x > y, "Ge": x >= y}[r[1]])
+        if out == [True, False]:
             return {"true"}
+        if out == [False, True]:
+            return {"false"}
         return None
     res, matched = k2.cut_gate(fn, [xb], is_last)
-    res2, _ = k2.cut_gate(fn, [db], lambda k, a, i: {"false"} if is_last(k, a, i) else None)
+    res2, _ = k2.cut_gate(fn, [db], lambda k, a, i: ({"false"} if is_last(k, a, i) == {"true"} else {"true"}) if is_last(k, a, i) else None)
     chk.decide(bool(matched) and res[xb] and res2[db], "remainder-threading", fk, "last-unit-test", fn.where(xb),
                "the exact division is used exactly for i == len - 1 and div_rem for every earlier unit",
                "the choice between div_rem and the exact division is not `i == len - 1`")
